@@ -77,8 +77,15 @@ GetterOK(j, v, x) ==
         r.ok = v.avsusd[<<x, "canon">>].ex /\ (r.ok => NEq(r.v, v.avsusd[<<x, "canon">>].v))
 
 \* GetVotePowerForChainID: the whole units of the recorded active value
+\* The statement of C05 is about the RECORDED values; the int64 vote-power getter is checked against them
+\* wherever it can represent them. A recorded active value above 2^63-1 cannot be returned by the getter
+\* (it panics: "Int64() out of bound" - the known int64 limit, a C11 matter when it happens in a block phase),
+\* so a failing query in such a state is not a C05 violation (reported in the strict lane instead).
+MaxInt64 == NC("9223372036854775807")   \* trace specs run under the Num.class override (decimal strings)
+Unrepresentable(v, x) == \E o \in VOPS : NGt(DecTruncInt(RecordedActive(v, o, x), PREC), MaxInt64)
 VotePowerOK(j, v, x) ==
-  ~v.avs[x].chain \/ (j.vpok /\ \A o \in VOPS : NEq(j.vp[o], DecTruncInt(RecordedActive(v, o, x), PREC)))
+  ~v.avs[x].chain \/ (IF j.vpok THEN \A o \in VOPS : NEq(j.vp[o], DecTruncInt(RecordedActive(v, o, x), PREC))
+                                 ELSE Unrepresentable(v, x))
 
 NotOptedInNothingFor(v, due) ==
   \A k \in UKeys : (k[1] \in due /\ v.opt[<<k[3], k[1], k[2]>>] # "in") =>
@@ -116,6 +123,7 @@ EpochEndTags(j, p, pre, post, m) ==
   T(NotOptedInNothingFor(post, due), "C05_NotOptedIn") \cup
   T(\A x \in due : GetterOK(j, post, x), "C05_Getter") \cup
   T(\A x \in due : VotePowerOK(j, post, x), "C05_VotePower") \cup
+  T(j.vpok \/ due = {}, "STRICT_votepower_query_failed") \cup
   T(MonotoneOK(m, p, post, due), "C05_Monotone")
 
 (***************************************************************************)
